@@ -11,4 +11,5 @@ G('so.strtoi_lim', 'strops', 'strtoi_lim', S, body='\tconst char *s; const char 
 G('so.romstrtoi_lim', 'strops', 'romstrtoi_lim', S, body='\tconst char *s; const char **ep; int32_t lo, hi;\n\tromstrtoi_lim(s, ep, lo, hi);', native=False, unwind=20,
   bounded=dict(bound='strings of at most 17 bytes', why='the roman reader loops to the terminating NUL; longer strings are not explored'))
 G('so.L_rt_rom', 'strops', 'L_rt_rom', ['C09'], ins=[('uint32_t', 'in_d')], call='L_rt_rom(in_d)', pre='1', post='1', direct=True, must=['L_rt_rom'], native=False, unwind=20, timeout=600)
+G('so.L_rt_j', 'strops', 'L_rt_j', ['C09'], ins=[('uint32_t', 'in_d'), ('char', 'in_f'), ('size_t', 'in_z')], call='L_rt_j(in_d, in_f, in_z)', pre='1', post='1', direct=True, must=['L_rt_j'], native=False, unwind=14, timeout=600)
 G('so.L_rt_num', 'strops', 'L_rt_num', ['C09'], ins=[('uint32_t', 'in_d'), ('char', 'in_f')], call='L_rt_num(in_d, in_f)', pre='1', post='1', direct=True, must=['L_rt_num'], native=False, unwind=14, timeout=600)
